@@ -398,13 +398,54 @@ impl Check for RunCheck {
         format!("C07/run/{}", TEMPLATE_NAMES[self.0])
     }
     fn classes(&self) -> &'static [&'static str] {
-        &[">= 5 passes", "best improved during the loop"]
+        &[">= 5 passes", "best improved during the loop", "generic ils template with a local search of the caller's"]
     }
     fn oracle(&self, spec: &RunSpec) -> Outcome {
         let mut v = V7 { classes: 0, nontrivial: false };
+        // the iterated local search assembled from the generic `ils` template with a local search of the caller's: the
+        // shipped `ls` loop inside one more scope (seed % 3 == 1) or an elitist hill climber that keeps no best-so-far
+        // individual of its own (seed % 3 == 2) - whatever the objective function returns inside the local search counts
+        if let (crate::fixtures::run::Tpl::RealIls { nb, dev, inner }, true) = (&spec.tpl, spec.seed % 3 != 0) {
+            v.classes |= 4;
+            let cfg = generic_ils(*nb, *dev, *inner, spec.iters, spec.seed % 3 == 1);
+            let r = v.visit(Ok(cfg), crate::fixtures::run::real_of(&spec.inst), spec);
+            return Outcome::new(v.nontrivial, v.classes, r);
+        }
         let r = dispatch(spec, &mut v);
         Outcome::new(v.nontrivial, v.classes, r)
     }
+}
+
+fn generic_ils(nb: u32, dev: f64, inner: u32, iters: u32, scoped_ls: bool) -> Configuration<crate::fixtures::problems::RealP> {
+    use mahf::{
+        components::{boundary, initialization, mutation, replacement, selection, Scope},
+        conditions::LessThanN,
+        heuristics::{ils, ls},
+        identifier::Global,
+    };
+    type P = crate::fixtures::problems::RealP;
+    let local: Box<dyn Component<P>> = if scoped_ls {
+        Scope::new(vec![ls::ls::<P, Global>(
+            ls::Parameters { num_neighbors: nb, neighbors: mutation::NormalMutation::new_dev(dev), constraints: boundary::Saturation::new() },
+            LessThanN::iterations(inner),
+        )])
+    } else {
+        Configuration::<P>::builder()
+            .while_(LessThanN::iterations(inner), |b| {
+                b.do_(selection::CloneSingle::new(nb))
+                    .do_(mutation::NormalMutation::new_dev(dev))
+                    .do_(boundary::Saturation::new())
+                    .evaluate()
+                    .do_(replacement::MuPlusLambda::new(1))
+            })
+            .build_component()
+    };
+    Configuration::builder()
+        .do_(initialization::RandomSpread::new(1))
+        .evaluate()
+        .update_best_individual()
+        .do_(ils::ils::<P, Global>(ils::Parameters { perturbation: mutation::PartialRandomSpread::new_full(), ls: local }, LessThanN::iterations(iters)))
+        .build()
 }
 
 fn obj_strategy() -> impl Strategy<Value = Fb> {
